@@ -575,6 +575,9 @@ impl World {
 						refailed
 					);
 				}
+				if self.revoked_after_broadcast.contains(&n) && refailed.is_empty() {
+					ctx = " [consequence of C05-2: this node revoked a commitment it had already broadcast (the ChannelForceClosed update was lost in a crash and the restarted node resumed the channel); the commitment confirmed and the peer took the funds with justice transactions]".to_string();
+				}
 				self.violate(
 					prop,
 					&oracle,
